@@ -9,8 +9,8 @@ import (
 	"fmt"
 	"log/slog"
 	"net/netip"
-	"slices"
 	"runtime"
+	"slices"
 	"sort"
 	"strings"
 	"sync"
@@ -50,14 +50,14 @@ import (
 //   both:           no panic.
 
 var (
-	c35Me  = netip.MustParseAddr("10.0.0.1")
-	c35Me6 = netip.MustParseAddr("fd00::1")
-	c35L   = netip.MustParseAddr("10.0.0.100")
-	c35L2  = netip.MustParseAddr("fd00::100")
-	c35P   = netip.MustParseAddr("10.0.0.2")
-	c35P2  = netip.MustParseAddr("fd00::2")
-	c35Q   = netip.MustParseAddr("10.0.0.3")
-	c35X   = netip.MustParseAddr("10.0.0.50") // nobody
+	c35Me      = netip.MustParseAddr("10.0.0.1")
+	c35Me6     = netip.MustParseAddr("fd00::1")
+	c35L       = netip.MustParseAddr("10.0.0.100")
+	c35L2      = netip.MustParseAddr("fd00::100")
+	c35P       = netip.MustParseAddr("10.0.0.2")
+	c35P2      = netip.MustParseAddr("fd00::2")
+	c35Q       = netip.MustParseAddr("10.0.0.3")
+	c35X       = netip.MustParseAddr("10.0.0.50") // nobody
 	c35LStatic = netip.MustParseAddrPort("192.0.2.100:4242")
 )
 
@@ -323,7 +323,7 @@ type c35Writer struct {
 }
 
 func (w *c35Writer) SendVia(*HostInfo, *Relay, []byte, []byte, []byte, bool, int) {}
-func (w *c35Writer) Handshake(netip.Addr)                                       {}
+func (w *c35Writer) Handshake(netip.Addr)                                         {}
 func (w *c35Writer) SendMessageToVpnAddr(t header.MessageType, st header.MessageSubType, a netip.Addr, p, _, _ []byte) {
 	w.sent = append(w.sent, c35Sent{t, st, a, append([]byte(nil), p...)})
 }
@@ -505,9 +505,9 @@ func c35ClaimClass(m c35Msg) string {
 
 // decode a payload the receiver handed to the EncWriter.
 type c35Decoded struct {
-	Type     NebulaMeta_MessageType
-	About    []netip.Addr
-	Tokens   []string
+	Type   NebulaMeta_MessageType
+	About  []netip.Addr
+	Tokens []string
 }
 
 func c35Decode(p []byte) (c35Decoded, error) {
@@ -1087,6 +1087,25 @@ func TestVerifC35(t *testing.T) {
 			},
 		})
 		perRole[role.Name] = map[string]any{"states": res.States, "transitions": res.Transitions, "max_depth": res.MaxDepth, "closed_at_depth": res.Exhaustive}
+	}
+	if c.Thorough() && !c.OutOfTime() {
+		// deeper histories for the lighthouse receiver over the small (quick) alphabet
+		small := c35ReducedAlphabet(false)
+		role := c35Roles[0]
+		res := mc.BFSReplay(c, mc.BFSConfig[c35Msg]{
+			MaxDepth: 5,
+			Workers:  0,
+			Label:    func(m c35Msg) string { return m.String() },
+			Stop:     func() bool { return c.OutOfTime() || c.Violations() > 500 },
+			Run: func(hist []c35Msg) (string, []c35Msg) {
+				w := c35NewWorld(c, role, stats)
+				for i, m := range hist {
+					w.apply(m, i == len(hist)-1)
+				}
+				return w.key(), small
+			},
+		})
+		perRole[role.Name+" (small alphabet, depth 5)"] = map[string]any{"states": res.States, "transitions": res.Transitions, "max_depth": res.MaxDepth, "closed_at_depth": res.Exhaustive}
 	}
 	c.Set("histories", perRole)
 	c.Set("history_depth", depth)
